@@ -200,7 +200,8 @@ func Verif_C04_remote_unit_followed_after_restart() {
 	recorded := int64(6)
 	stored := []int{0, 3, 6}[verifapi.Choose(3)]
 	rec := &StatusFileData{State: state, Detail: "d", StdoutSize: recorded, WorkType: "remote",
-		ExtraData: &RemoteExtraData{RemoteNode: "R", RemoteWorkType: "echo", RemoteUnitID: "rem1", RemoteStarted: true, RemoteParams: map[string]string{}}}
+		ExtraData: &RemoteExtraData{RemoteNode: "R", RemoteWorkType: "echo", RemoteUnitID: "rem1", RemoteStarted: true, RemoteParams: map[string]string{},
+			SignWork: verifapi.Bool()}} // a signed unit too: at restart the signing key is configured only AFTER the units were rescanned
 	verifapi.Assert("record-saved", rec.Save(udir+"/status") == nil)
 	verifapi.Assert("stdout-stored", os.WriteFile(udir+"/stdout", make([]byte, stored), 0o600) == nil)
 	verifapi.Reboot()
@@ -220,6 +221,13 @@ func Verif_C04_remote_unit_followed_after_restart() {
 	if !complete {
 		verifapi.Cover("must-be-followed")
 		verifapi.Assert("unfinished-remote-unit-is-followed-after-restart", *wk.nc.dials >= 1)
+		// ... and it KEEPS being followed: the remote node is unreachable for now, the monitor goes on trying
+		d1 := *wk.nc.dials
+		for i := 0; i < 4; i++ {
+			verifapi.AdvanceTime(time.Second)
+			verifapi.Quiesce()
+		}
+		verifapi.Assert("the-monitor-keeps-trying-while-the-unit-is-unfinished", *wk.nc.dials > d1)
 	}
 	wk.cancel()
 	verifapi.Quiesce()
